@@ -10,6 +10,9 @@ Mutation testing (scratch worktree, VERIF_REPO=<dir>, quick tier, seed 1; green 
   update-own-writes         action.go update iterates its query while writing (the original defect,
                             fixed by `fix: update and insert-query statements read all their rows ...`)
                                                                                          -> VIOLATION
+  unfix-update-project      action.go update builds the record with the project's header (the defect reported
+                            by the C24 seed author: `update t project k, a set a = 9` blanks b)  green -> VIOLATION
+                            (reached by update/delete through `t [where] project <key + some columns>`)
   delete-skips-first        action.go delete skips the first row              tests red  -> VIOLATION
   delete-stops-at-dup       action.go delete: break instead of continue on a repeated record offset
                             green, NOT caught: equivalent here (a query never returns the same record
